@@ -158,43 +158,19 @@ pub fn create_number_constructor(interp: &mut Interpreter) -> Gc<JsObject> {
 /// Number.parseFloat - same as global parseFloat
 pub fn number_parse_float(
     interp: &mut Interpreter,
-    _this: JsValue,
+    this: JsValue,
     args: &[JsValue],
 ) -> Result<Guarded, JsError> {
-    let arg = args.first().cloned().unwrap_or(JsValue::Undefined);
-    let s = interp.to_js_string(&arg).to_string();
-
-    let trimmed = s.trim_start();
-    let result = trimmed.parse::<f64>().unwrap_or(f64::NAN);
-    Ok(Guarded::unguarded(JsValue::Number(result)))
+    super::global::global_parse_float(interp, this, args)
 }
 
 /// Number.parseInt - same as global parseInt
 pub fn number_parse_int(
     interp: &mut Interpreter,
-    _this: JsValue,
+    this: JsValue,
     args: &[JsValue],
 ) -> Result<Guarded, JsError> {
-    let arg = args.first().cloned().unwrap_or(JsValue::Undefined);
-    let s = interp.to_js_string(&arg).to_string();
-    let radix = args.get(1).map(|v| v.to_number() as i32).unwrap_or(10);
-
-    let trimmed = s.trim_start();
-
-    // Handle radix
-    let radix = if radix == 0 {
-        10
-    } else if !(2..=36).contains(&radix) {
-        return Ok(Guarded::unguarded(JsValue::Number(f64::NAN)));
-    } else {
-        radix
-    };
-
-    let result = i64::from_str_radix(trimmed, radix as u32)
-        .map(|n| n as f64)
-        .unwrap_or(f64::NAN);
-
-    Ok(Guarded::unguarded(JsValue::Number(result)))
+    super::global::global_parse_int(interp, this, args)
 }
 
 // Number.isNaN - stricter, no type coercion
@@ -417,7 +393,13 @@ pub fn number_to_string(
     args: &[JsValue],
 ) -> Result<Guarded, JsError> {
     let n = get_number_value(interp, &this)?;
-    let radix = args.first().map(|v| v.to_number() as i32).unwrap_or(10);
+    let radix = match args.first() {
+        None | Some(JsValue::Undefined) => 10,
+        Some(v) => {
+            let r = v.to_number();
+            if r.is_nan() { 0 } else { math::trunc(r).clamp(-1.0, 37.0) as i32 }
+        }
+    };
 
     if !(2..=36).contains(&radix) {
         return Err(JsError::range_error(
@@ -431,45 +413,88 @@ pub fn number_to_string(
         ))));
     }
 
-    // For other radixes, we need integer conversion
-    if !n.is_finite() || math::fract(n) != 0.0 {
+    if !n.is_finite() {
         return Ok(Guarded::unguarded(JsValue::String(JsString::from(
             format_number_js(n),
         ))));
     }
 
-    let int_val = n as i64;
-    let result = match radix {
-        2 => format!("{:b}", int_val.abs()),
-        8 => format!("{:o}", int_val.abs()),
-        16 => format!("{:x}", int_val.abs()),
-        _ => {
-            // Generic radix conversion
-            const DIGITS: &[u8] = b"0123456789abcdefghijklmnopqrstuvwxyz";
-            let mut num = int_val.abs();
-            let mut result = String::new();
-            while num > 0 {
-                let digit_idx = (num % radix as i64) as usize;
-                // radix is validated to be 2-36, so digit_idx is always 0-35
-                if let Some(&ch) = DIGITS.get(digit_idx) {
-                    result.insert(0, ch as char);
+    Ok(Guarded::unguarded(JsValue::String(JsString::from(
+        number_to_radix_string(n, radix as u32),
+    ))))
+}
+
+/// Digits of a finite number in a radix other than 10: the integer part exactly, the
+/// fraction up to the precision that still distinguishes the number from its neighbours.
+fn number_to_radix_string(n: f64, radix: u32) -> String {
+    const DIGITS: &[u8] = b"0123456789abcdefghijklmnopqrstuvwxyz";
+    let digit_char = |d: usize| DIGITS.get(d).map(|&c| c as char).unwrap_or('0');
+    let radix_f = radix as f64;
+    let value = n.abs();
+    let mut integer = math::floor(value);
+    let mut fraction = value - integer;
+
+    // Half the distance to the next double: digits below that are noise
+    let next = f64::from_bits(value.to_bits() + 1);
+    let mut delta = (0.5 * (next - value)).max(f64::from_bits(1));
+
+    let mut frac_digits: Vec<usize> = Vec::new();
+    if fraction >= delta {
+        loop {
+            fraction *= radix_f;
+            delta *= radix_f;
+            let digit = fraction as usize;
+            frac_digits.push(digit);
+            fraction -= digit as f64;
+            if (fraction > 0.5 || (fraction == 0.5 && (digit & 1) == 1)) && fraction + delta > 1.0
+            {
+                // Round up, carrying into the integer part if every digit overflows
+                loop {
+                    match frac_digits.pop() {
+                        None => {
+                            integer += 1.0;
+                            break;
+                        }
+                        Some(d) if d + 1 < radix as usize => {
+                            frac_digits.push(d + 1);
+                            break;
+                        }
+                        Some(_) => {}
+                    }
                 }
-                num /= radix as i64;
+                break;
             }
-            if result.is_empty() {
-                result = "0".to_string();
+            if fraction < delta {
+                break;
             }
-            result
         }
-    };
+    }
 
-    let result = if int_val < 0 {
-        format!("-{}", result)
-    } else {
-        result
-    };
+    let mut int_digits: Vec<char> = Vec::new();
+    // Far above 2^53 the low digits carry no information
+    while integer >= 36028797018963968.0 {
+        integer /= radix_f;
+        int_digits.push('0');
+    }
+    loop {
+        let remainder = integer % radix_f;
+        int_digits.push(digit_char(remainder as usize));
+        integer = (integer - remainder) / radix_f;
+        if integer <= 0.0 {
+            break;
+        }
+    }
 
-    Ok(Guarded::unguarded(JsValue::String(JsString::from(result))))
+    let mut result = String::new();
+    if n < 0.0 {
+        result.push('-');
+    }
+    result.extend(int_digits.iter().rev());
+    if !frac_digits.is_empty() {
+        result.push('.');
+        result.extend(frac_digits.iter().map(|&d| digit_char(d)));
+    }
+    result
 }
 
 // Number.prototype.toPrecision
@@ -488,16 +513,17 @@ pub fn number_to_precision(
 
     let precision = args.first().map(|v| v.to_number() as i32).unwrap_or(1);
 
-    if !(1..=100).contains(&precision) {
-        return Err(JsError::range_error(
-            "toPrecision() argument must be between 1 and 100",
-        ));
-    }
-
+    // A non-finite number is rendered before the precision is range-checked
     if !n.is_finite() {
         return Ok(Guarded::unguarded(JsValue::String(JsString::from(
             format_number_js(n),
         ))));
+    }
+
+    if !(1..=100).contains(&precision) {
+        return Err(JsError::range_error(
+            "toPrecision() argument must be between 1 and 100",
+        ));
     }
 
     // Exact decimal expansion of |n| rounded half up to `precision` significant digits.
